@@ -393,6 +393,118 @@ def ob_parent_certified(run, oid):
         o.check(not bad, "%s|by-hash" % fn, "SlotState::%s answers true only behind a comparison with its block-hash argument" % fn, b.span, {"problems": bad[:3]})
 
 
+def ob_sorted_vec(run, oid):
+    """SortedVecMap / SortedVecSet (pool::sorted_vec): the containers behind the per-block stake counters and the pending / sent sets"""
+    from engine import paths
+    prog = run.program("lib")
+    SV = POOL + "sorted_vec::"
+    o = run.ob(oid, "the sorted-vector set / map keep their contract: lookups are binary searches for the given key, elements are inserted only when absent and at the "
+                    "position the search reports, removal only of the found position",
+               "the at-most-once flags (sent_safe_to_notar, pending_safe_to_notar) and the per-block stake counters live in these containers: an insert that does not keep the "
+               "order makes later binary searches miss present elements (events raised twice, stake counted into a second entry)", floor=10)
+
+    def search_of(b, t, argpos):
+        """t is (the Result of) a binary search over self.0 for parameter #argpos"""
+        for x in mir.walk(t):
+            if isinstance(x, tuple) and x and x[0] == "call":
+                nm = x[1].rsplit("::", 1)[-1]
+                if nm == "binary_search" and len(x[2]) == 2 and K.mentions_field(x[2][0], "0") and K.mentions(x[2][1], lambda y: y[0] == "param" and y[1] == argpos):
+                    return True
+                if x[1] == SV + "SortedVecMap::search" and len(x[2]) == 2 and K.mentions(x[2][1], lambda y: y[0] == "param" and y[1] == argpos):
+                    return True
+        return False
+
+    def mutations(b, name):
+        return [c for c in b.calls() if c.name.rsplit("::", 1)[-1] == name and c.name.startswith("smallvec::")]
+    # ---- set
+    for fn, present_ret, mut in (("insert", 0, "insert"), ("remove", 1, "remove")):
+        b = prog.body(SV + "SortedVecSet::" + fn)
+        if b is None:
+            o.missing("SortedVecSet::" + fn)
+            continue
+        rows = paths.decision_table(b, prog)
+        ok = len(rows) == 2
+        for atoms, ret, _bl in rows:
+            a = [x for x in atoms if not D.is_structural_atom(x)]
+            ok = ok and len(a) == 1 and a[0][0] == "is_ok" and search_of(b, a[0][1][0], 2) and K.const_eval(ret) == (present_ret if a[0][2] else 1 - present_ret)
+        o.check(ok, "SortedVecSet::%s|verdict" % fn, "%s answers by a binary search for the given value (%s when present)" % (fn, bool(present_ret)), b.span)
+        ms = mutations(b, mut)
+        ok = len(ms) == 1 and len(mutations(b, "push")) == 0
+        if ok:
+            g = [x for x in G.guard_atoms(b, ms[0].bb, prog) if x[0] == "is_ok" and search_of(b, x[1][0], 2)]
+            ok = len(g) == 1 and g[0][2] is (fn == "remove")
+            idx = b.operand_term(ms[0].args[1])
+            ok = ok and search_of(b, idx, 2)
+            if fn == "insert":
+                ok = ok and K.mentions(b.operand_term(ms[0].args[2]), lambda y: y[0] == "param" and y[1] == 2)
+        o.check(ok, "SortedVecSet::%s|position" % fn, "the vector is changed only %s, at the index the search reported" % ("when the value is absent" if fn == "insert" else "when the value is present"), b.span)
+    b = prog.body(SV + "SortedVecSet::contains")
+    if b is None:
+        o.missing("SortedVecSet::contains")
+    else:
+        rows = paths.decision_table(b, prog)
+        ok = len(rows) == 1 and not [x for x in rows[0][0] if not D.is_structural_atom(x)]
+        t = K.peel(rows[0][1]) if ok else None
+        ok = ok and isinstance(t, tuple) and t[0] == "call" and t[1].endswith("Result::is_ok") and search_of(b, t, 2)
+        o.check(bool(ok), "SortedVecSet::contains|verdict", "contains = binary_search(value).is_ok()", b.span)
+    # ---- map
+    b = prog.body(SV + "SortedVecMap::search")
+    if b is None:
+        o.missing("SortedVecMap::search")
+    else:
+        cs = [c for c in b.calls() if c.name.rsplit("::", 1)[-1] == "binary_search_by"]
+        ok = len(cs) == 1 and cs[0].dst["l"] == 0
+        if ok:
+            cl = b.operand_term(cs[0].args[1])
+            cb = prog.bodies.get(cl[1]) if isinstance(cl, tuple) and cl and cl[0] == "closure" else None
+            cmp_ = [c for c in cb.calls() if c.name.rsplit("::", 1)[-1] == "cmp"] if cb is not None else []
+            # |(k, _)| k.cmp(key): the stored key is the receiver, the searched key the argument (the other order reverses the search)
+            ok = len(cmp_) == 1 and K.mentions(cb.operand_term(cmp_[0].args[0]), lambda y: y[0] == "param") and K.mentions(cb.operand_term(cmp_[0].args[1]), lambda y: y[0] == "upvar") \
+                and cmp_[0].dst["l"] == 0
+        o.check(bool(ok), "SortedVecMap::search|compares-keys", "search = binary_search_by(|(k, _)| k.cmp(key))", b.span)
+    b = prog.body(SV + "SortedVecMap::get_or_insert_with")
+    if b is None:
+        o.missing("SortedVecMap::get_or_insert_with")
+    else:
+        ms = mutations(b, "insert")
+        ok = len(ms) == 1 and not mutations(b, "push") and not mutations(b, "remove")
+        if ok:
+            g = [x for x in G.guard_atoms(b, ms[0].bb, prog) if x[0] == "is_ok" and search_of(b, x[1][0], 2)]
+            ok = len(g) == 1 and g[0][2] is False and search_of(b, b.operand_term(ms[0].args[1]), 2)
+        o.check(bool(ok), "SortedVecMap::get_or_insert_with|position", "a new entry is inserted only when the key is absent, at the index the search reported", b.span)
+        rows = paths.decision_table(b, prog)
+        ok = bool(rows)
+        for atoms, ret, _bl in rows:
+            ok = ok and ret is not None and K.mentions_field(ret, "1") and K.mentions_call(ret, "index_mut")
+        o.check(ok, "SortedVecMap::get_or_insert_with|returns-entry", "returns the value slot of the entry at that index", b.span)
+    for fn in ("get", "get_mut"):
+        b = prog.body(SV + "SortedVecMap::" + fn)
+        if b is None:
+            o.missing("SortedVecMap::" + fn)
+            continue
+        ok = True
+        some = 0
+        for atoms, ret, _bl in paths.decision_table(b, prog):
+            t = K.peel(ret) if ret is not None else None
+            if t is None:
+                ok = False
+            elif isinstance(t, tuple) and t[0] == "agg" and str(t[2]) == "None":
+                ok = ok and any(x[0] == "is_ok" and x[2] is False and search_of(b, x[1][0], 2) for x in atoms)
+            else:
+                some += 1
+                ok = ok and search_of(b, t, 2)
+        o.check(ok and some >= 1, "SortedVecMap::%s|by-search" % fn, "%s answers from the position search(key) reports" % fn, b.span)
+    # nobody else reaches into the vectors
+    others = []
+    for d, ob_ in prog.bodies.items():
+        if ob_.generated or d.startswith(SV) or d.startswith("<" + SV):
+            continue
+        for (_bb, ow, n, _sp) in ob_.field_reads():
+            if ow.startswith(SV + "SortedVec") and n == "0":
+                others.append(fshort(d))
+    o.check(not others, "sorted_vec|encapsulated", "the backing vectors are touched only inside pool::sorted_vec", "", {"others": sorted(set(others))[:4]})
+
+
 def ob_registry(run, oid):
     prog = run.program("lib")
     o = run.ob(oid, "the waiting registry keeps every child waiting for a parent's certificate",
@@ -456,4 +568,5 @@ def check(run):
     ob_bookkeeping(run, "O6.5")
     ob_registry(run, "O6.6")
     ob_parent_certified(run, "O6.8")
+    ob_sorted_vec(run, "O6.10")
     D.ob_loop_exits(run, "O6.9", ["consensus::pool"], "a certificate can release several waiting children, a skip vote several pending blocks: leaving the loop at the first one that has nothing to report leaves the others waiting for ever")
